@@ -9,10 +9,7 @@ import (
 	"fmt"
 	"hash/fnv"
 	"math/rand"
-	"os"
-	"runtime"
 	"sort"
-	"sync"
 	"sync/atomic"
 	"testing"
 	"time"
@@ -299,368 +296,6 @@ func showPeers(ps []*core.PeerInfo, idx map[core.PeerID]int) string {
 		out += fmt.Sprintf("p%d=%s:%d/%v", idx[p.PeerID], p.IP, p.Port, p.Complete)
 	}
 	return out + "]"
-}
-
-// ---------------------------------------------------------------------------
-// Part "stress": announcements and lookups racing with cleanup passes. The Go
-// scheduler picks the interleaving; the oracle is an invariant that holds under
-// every interleaving.
-// ---------------------------------------------------------------------------
-
-type Round struct {
-	Adv   int    `json:"adv"`   // clock advance before the round, in eighths of the TTL (1..7, always < TTL)
-	Churn uint32 `json:"churn"` // which churn peers announce in this round
-	// Settle: wait for one complete pass of both cleanups after the clock advance and
-	// before announcing (expired entries are then gone instead of being renewed in place).
-	Settle bool `json:"settle,omitempty"`
-}
-
-type StressCase struct {
-	Keep       int     `json:"keep"`       // peers of torrent 0 that announce in every round
-	Churn      int     `json:"churn"`      // peers (of both torrents) that announce only in some rounds
-	Announcers int     `json:"announcers"` // goroutines sharing the announcements of a round
-	Rounds     []Round `json:"rounds"`
-}
-
-func genStress(t *rapid.T) StressCase {
-	c := StressCase{
-		Keep:       rapid.IntRange(1, 4).Draw(t, "keep"),
-		Churn:      rapid.IntRange(2, 32).Draw(t, "churn"),
-		Announcers: rapid.IntRange(1, 3).Draw(t, "announcers"),
-	}
-	maxChunks := 4
-	if os.Getenv("VERIF_TIER") == "thorough" {
-		maxChunks = 8
-	}
-	chunks := rapid.SliceOfN(rapid.SliceOfN(rapid.Custom(func(t *rapid.T) Round {
-		a := rapid.Uint32().Draw(t, "m1")
-		b := rapid.Uint32().Draw(t, "m2")
-		m := a & b // each churn peer announces in about a quarter of the rounds
-		if rapid.IntRange(0, 3).Draw(t, "all") == 3 {
-			m = 0xffffffff
-		}
-		return Round{Adv: rapid.IntRange(1, 7).Draw(t, "adv"), Churn: m, Settle: rapid.IntRange(0, 4).Draw(t, "settle") == 4}
-	}), 1, 10), 1, maxChunks).Draw(t, "rounds")
-	for _, ch := range chunks {
-		c.Rounds = append(c.Rounds, ch...)
-	}
-	return c
-}
-
-const stressTTL = 80 * time.Second
-
-// An announcement of round r carries r in all three fields so that a lookup can
-// tell which announcement it reflects and whether the fields belong together.
-func stressInfo(p, r int) *core.PeerInfo {
-	return core.NewPeerInfo(peerID(p), fmt.Sprintf("10.7.%d.%d", r/250, r%250), 10000+r, false, r%2 == 1)
-}
-
-func stressVersion(g *core.PeerInfo) (int, bool) {
-	r := g.Port - 10000
-	if r < 0 {
-		return 0, false
-	}
-	w := stressInfo(0, r)
-	return r, g.IP == w.IP && g.Complete == w.Complete
-}
-
-type failbox struct {
-	mu  sync.Mutex
-	msg string
-}
-
-func (f *failbox) set(format string, a ...interface{}) {
-	f.mu.Lock()
-	if f.msg == "" {
-		f.msg = fmt.Sprintf(format, a...)
-	}
-	f.mu.Unlock()
-}
-
-func (f *failbox) get() string {
-	f.mu.Lock()
-	defer f.mu.Unlock()
-	return f.msg
-}
-
-func runStress(c StressCase) pbt.Verdict {
-	if c.Keep < 1 || c.Keep > 16 || c.Churn < 1 || c.Churn > 32 || c.Announcers < 1 || c.Announcers > 8 || len(c.Rounds) == 0 || len(c.Rounds) > 2000 {
-		return pbt.Verdict{Discard: true}
-	}
-	for _, r := range c.Rounds {
-		if r.Adv < 1 || r.Adv > 7 {
-			return pbt.Verdict{Discard: true}
-		}
-	}
-	clk := newClock()
-	s := peerstore.NewLocalStore(peerstore.LocalConfig{TTL: stressTTL}, clk)
-	defer s.Close()
-
-	// Peers 0..Keep-1 are kept alive in torrent 0; peers Keep..Keep+Churn-1 churn in both torrents.
-	total := c.Keep + c.Churn
-	idx := map[core.PeerID]int{}
-	for p := 0; p < total; p++ {
-		idx[peerID(p)] = p
-	}
-	var fb failbox
-	var stop atomic.Bool
-	var curRound atomic.Int64  // highest round whose announcements may have started
-	var doneRound atomic.Int64 // highest round whose announcements have all returned
-	curRound.Store(-1)
-	doneRound.Store(-1)
-	var bg sync.WaitGroup
-	guard := func(name string, f func()) {
-		bg.Add(1)
-		go func() {
-			defer bg.Done()
-			defer func() {
-				if r := recover(); r != nil {
-					fb.set("panic in %s: %v", name, r)
-				}
-			}()
-			f()
-		}()
-	}
-	var entryPasses, groupPasses, lookups atomic.Int64
-	guard("entry cleanup", func() {
-		for !stop.Load() {
-			s.VerifCleanupExpiredPeerEntries()
-			entryPasses.Add(1)
-			runtime.Gosched()
-		}
-	})
-	guard("group cleanup", func() {
-		for !stop.Load() {
-			s.VerifCleanupExpiredPeerGroups()
-			groupPasses.Add(1)
-			runtime.Gosched()
-		}
-	})
-	// Reader: concurrent lookups must always be well-formed, and peers that announce in
-	// every round (never older than 7/8 TTL) must be in every full lookup.
-	guard("reader", func() {
-		lastSeen := make([]map[int]int, 2)
-		for t := range lastSeen {
-			lastSeen[t] = map[int]int{}
-		}
-		for k := 0; !stop.Load(); k++ {
-			t := k % 2
-			n := total
-			if k%3 == 2 {
-				n = 1 + k%total
-			}
-			doneBefore := doneRound.Load()
-			got, err := s.GetPeers(torrent(t), n)
-			upper := curRound.Load()
-			lookups.Add(1)
-			if err != nil {
-				fb.set("concurrent GetPeers failed: %v", err)
-				return
-			}
-			if len(got) > n {
-				fb.set("concurrent GetPeers returned %d peers, more than the %d asked for", len(got), n)
-				return
-			}
-			seen := map[int]bool{}
-			for _, g := range got {
-				p, ok := idx[g.PeerID]
-				if !ok {
-					fb.set("concurrent GetPeers returned an unknown peer id %s", g.PeerID)
-					return
-				}
-				if seen[p] {
-					fb.set("concurrent GetPeers returned peer p%d twice", p)
-					return
-				}
-				seen[p] = true
-				v, consistent := stressVersion(g)
-				if !consistent {
-					fb.set("concurrent GetPeers returned fields of different announcements for peer p%d: %s:%d complete=%v", p, g.IP, g.Port, g.Complete)
-					return
-				}
-				if int64(v) > upper {
-					fb.set("concurrent GetPeers returned an announcement of round %d for peer p%d before round %d started", v, p, upper+1)
-					return
-				}
-				if v < lastSeen[t][p] {
-					fb.set("concurrent GetPeers went back to an older announcement of peer p%d: round %d after round %d", p, v, lastSeen[t][p])
-					return
-				}
-				lastSeen[t][p] = v
-				if t == 1 && p < c.Keep {
-					fb.set("concurrent GetPeers(t1) returned peer p%d which only announced torrent t0", p)
-					return
-				}
-			}
-			if t == 0 && n >= total && doneBefore >= 0 {
-				for p := 0; p < c.Keep; p++ {
-					if !seen[p] {
-						fb.set("fresh announcement forgotten: peer p%d re-announces in every round (at most 7/8 TTL apart) but is missing from a concurrent full lookup of t0 after round %d", p, doneBefore)
-						return
-					}
-				}
-			}
-			if k%8 == 7 {
-				runtime.Gosched()
-			}
-		}
-	})
-
-	// lastAnn[t][p] = (round, time) of the latest announcement.
-	type la struct {
-		round int
-		at    time.Time
-	}
-	lastAnn := []map[int]la{{}, {}}
-	var renewedExpired, overlapped, rounds int
-	finish := func() {
-		stop.Store(true)
-		bg.Wait()
-	}
-	// waitPasses blocks until both cleanup loops completed a pass that was not finished
-	// at the time of the call (structural wait; the bound only guards against a dead loop).
-	waitPasses := func() bool {
-		e0, g0 := entryPasses.Load(), groupPasses.Load()
-		deadline := time.Now().Add(20 * time.Second)
-		for entryPasses.Load() == e0 || groupPasses.Load() == g0 {
-			if fb.get() != "" || time.Now().After(deadline) {
-				return false
-			}
-			runtime.Gosched()
-		}
-		return true
-	}
-	if !waitPasses() {
-		finish()
-		if m := fb.get(); m != "" {
-			return pbt.Fail("%s", m)
-		}
-		return pbt.Verdict{Discard: true}
-	}
-	for r, rd := range c.Rounds {
-		if fb.get() != "" {
-			break
-		}
-		clk.Advance(time.Duration(rd.Adv) * stressTTL / 8)
-		now := clk.Now()
-		curRound.Store(int64(r))
-		if rd.Settle && !waitPasses() {
-			break
-		}
-		// Work list of the round.
-		type job struct{ t, p int }
-		var jobs []job
-		for p := 0; p < c.Keep; p++ {
-			jobs = append(jobs, job{0, p})
-		}
-		for q := 0; q < c.Churn; q++ {
-			if rd.Churn&(1<<uint(q)) != 0 {
-				p := c.Keep + q
-				jobs = append(jobs, job{0, p}, job{1, p})
-			}
-		}
-		renewing := 0
-		for _, j := range jobs {
-			if old, ok := lastAnn[j.t][j.p]; ok && now.Sub(old.at) > stressTTL {
-				renewing++ // re-announcement of an entry a cleanup pass may be deleting right now
-			}
-		}
-		ePre := entryPasses.Load()
-		var wg sync.WaitGroup
-		for a := 0; a < c.Announcers; a++ {
-			wg.Add(1)
-			go func(a int) {
-				defer wg.Done()
-				defer func() {
-					if rec := recover(); rec != nil {
-						fb.set("panic in announcer: %v", rec)
-					}
-				}()
-				for k := a; k < len(jobs); k += c.Announcers {
-					if err := s.UpdatePeer(torrent(jobs[k].t), stressInfo(jobs[k].p, r)); err != nil {
-						fb.set("UpdatePeer failed: %v", err)
-						return
-					}
-					runtime.Gosched()
-				}
-			}(a)
-		}
-		wg.Wait()
-		if renewing > 0 && !rd.Settle {
-			renewedExpired++
-			if entryPasses.Load() > ePre {
-				overlapped++ // a cleanup pass finished while expired entries were being re-announced
-			}
-		}
-		// Let the passes that were in flight during the announcements finish before judging.
-		if !waitPasses() {
-			break
-		}
-		for _, j := range jobs {
-			lastAnn[j.t][j.p] = la{r, now}
-		}
-		doneRound.Store(int64(r))
-		rounds++
-		// Quiescent check (announcers idle, cleanup and reader still running): every
-		// announcement younger than the TTL is returned by a full lookup, exactly as announced.
-		for t := 0; t < 2; t++ {
-			got, err := s.GetPeers(torrent(t), total)
-			if err != nil {
-				finish()
-				return pbt.Fail("GetPeers failed: %v", err)
-			}
-			seen := map[int]*core.PeerInfo{}
-			for _, g := range got {
-				p, ok := idx[g.PeerID]
-				if !ok || seen[p] != nil {
-					finish()
-					return pbt.Fail("full lookup after round %d returned an unknown or duplicate peer: %s", r, showPeers(got, idx))
-				}
-				seen[p] = g
-				l, ok := lastAnn[t][p]
-				if !ok {
-					finish()
-					return pbt.Fail("full lookup of t%d after round %d returned peer p%d which never announced it", t, r, p)
-				}
-				w := stressInfo(p, l.round)
-				if g.IP != w.IP || g.Port != w.Port || g.Complete != w.Complete {
-					finish()
-					return pbt.Fail("stale announcement: full lookup of t%d after round %d returned %s:%d complete=%v for peer p%d, latest announcement (round %d) was %s:%d complete=%v",
-						t, r, g.IP, g.Port, g.Complete, p, l.round, w.IP, w.Port, w.Complete)
-				}
-			}
-			for p, l := range lastAnn[t] {
-				if now.Sub(l.at) < stressTTL && seen[p] == nil {
-					finish()
-					return pbt.Fail("fresh announcement forgotten: peer p%d announced t%d in round %d (%s ago, ttl %s) and is missing from a full lookup after round %d while cleanup runs concurrently",
-						p, t, l.round, now.Sub(l.at), stressTTL, r)
-				}
-			}
-		}
-	}
-	finish()
-	if m := fb.get(); m != "" {
-		return pbt.Fail("%s", m)
-	}
-	if rounds < len(c.Rounds) {
-		return pbt.Verdict{Discard: true} // a cleanup loop did not make progress within the bound
-	}
-	var cl []string
-	if renewedExpired > 0 {
-		cl = append(cl, "expired-entry-re-announced")
-	}
-	if overlapped > 0 {
-		cl = append(cl, "cleanup-pass-overlapped-re-announcement")
-	}
-	if overlapped >= 3 {
-		cl = append(cl, "overlap-in>=3-rounds")
-	}
-	if lookups.Load() >= int64(rounds) {
-		cl = append(cl, "concurrent-lookups>=rounds")
-	}
-	v := pbt.OK(overlapped > 0, cl...)
-	v.Evals = rounds
-	return v
 }
 
 func TestProp(t *testing.T) {
